@@ -9,7 +9,7 @@ from props import (Group, gen_pattern, rand_input, sample, abnormal, parse_analy
 # C07 — accepts exactly the grammar and the flag set
 
 VALID_EXTRAS = ["\\p{IsBasicLatin}", "\\P{IsGreek}", "\\p{Lu}", "\\p{L}", "\\P{Nd}", "\\p{IsPrivateUse}", "[\\p{Ll}-[a-c]]", "[^\\s\\d]",
-                "[a-z-[aeiou]]", "[\\-a]", "[a\\-z]", "[a-]", "[-a]", "\\i\\c*", "\\I\\C", "x{2,}?", "(?:a|b)??", "\\$", "\\^", "\\\\", "\\|",
+                "[a-z-[aeiou]]", "[\\-a]", "[a\\-z]", "[a-]", "[-a]", "[a--[b]]", "[--[a]]", "[a-z--[m]]", "[\\d--[5]]", "[^a--[b]]", "[a-c-]", "\\i\\c*", "\\I\\C", "x{2,}?", "(?:a|b)??", "\\$", "\\^", "\\\\", "\\|",
                 "[\\[\\]]", "\\p{IsCombiningDiacriticalMarks}", "\\p{IsLatin-1Supplement}", "a{0}", "a{0,0}", "(a)(b)(c)(d)(e)(f)(g)(h)(i)(j)\\10",
                 "(a)\\1", "((a))\\2", "[+*?.|(){}]", "\\n\\r\\t", "a|", "|a", "(|a)", "()", "(?:)", "a{1,1}", "\\w+\\W+", "\\d\\D", "\\s\\S",
                 "[a-c-[b]-]" if False else "[a-c-[b]]", "^$", "^*", "$+", "(?:^)?a", ".", "..*", "\\.", "[.]"]
@@ -185,9 +185,11 @@ def c10_streams(ctx):
                 expect.append(e)
         cs = [Case("^\\p{Is%s}$" % key, "", "is_match", ch) for ch in chars]
         gs.append(Group(cs, {"features": set(), "kind": "block", "name": key, "chars": chars, "expect": expect}))
-    gs.append(Group([Case("^\\p{IsPrivateUse}$", "", "is_match", ch) for ch in "\U000F0000\U000FFFFD\U00100000\U0010FFFDa豈"],
-                    {"features": set(), "kind": "block", "name": "PrivateUse", "chars": list("\U000F0000\U000FFFFD\U00100000\U0010FFFDa豈"),
-                     "expect": [True] * 6 + [False, False]}))
+    pu = [(0xE000, True), (0xF8FF, True), (0xF0000, True), (0xFFFFD, True), (0x100000, True), (0x10FFFD, True), (0x61, False), (0xF900, False),
+          (0xD7FF, False), (0xEFFFF, False), (0xFFFFE, False), (0xFFFFF, False), (0x10FFFE, False), (0x10FFFF, False), (0xE800, True), (0xF1234, True)]
+    for esc, neg in (("p", False), ("P", True)):
+        gs.append(Group([Case("^\\%s{IsPrivateUse}$" % esc, "", "is_match", chr(o)) for o, _ in pu],
+                        {"features": set(), "kind": "block", "name": "PrivateUse", "chars": [chr(o) for o, _ in pu], "expect": [e != neg for _, e in pu]}))
     for bad in ["\\p{Xx}", "\\p{IsNoSuchBlock}", "\\p{Cs}", "\\p{IsBasic Latin}", "\\p{Lx}", "\\p{}", "\\p{Isbasiclatin}", "\\p{LU}"]:
         gs.append(Group([Case(bad, "", "compile")], {"features": set(), "kind": "unknown", "name": bad, "chars": [""], "expect": ["ERR:Syntax"]}))
     # the compiled classes themselves (model tables vs the crate's): dumps are compared by run_full
@@ -459,13 +461,13 @@ def c12_oracle(ctx, g):
 def c13_streams(ctx):
     r = ctx.rnd
     gs = []
-    metas = "()[]{}\\?*+|.^$ab1"
+    metas = "()[]{}\\?*+|.^$ab1 \t"
     for i in range(ctx.scale(900, 12000)):
         p = "".join(r.choice(metas) for _ in range(r.randint(1, 4)))
         f = r.choice(["q", "q", "qi", "qm", "qs", "qx", "qms", "iq"])
         parts = []
         for _ in range(r.randint(0, 3)):
-            parts.append("".join(r.choice("ab(.") for _ in range(r.randint(0, 2))))
+            parts.append("".join(r.choice("ab(. ") for _ in range(r.randint(0, 2))))
             parts.append(p if r.random() < 0.7 else (p.upper() if "i" in f else p[:-1]))
         s = "".join(parts)
         R = r.choice(["$1", "\\", "$", "x", "", "$0\\$", "\\n"])
@@ -573,6 +575,26 @@ def c14_streams(ctx):
                 cs.append(Case(pw, f + "x", api, s, repl))
                 cs.append(Case(pdel, f, api, s, repl))
             gs.append(Group(cs, {"features": features(ast), "input": s, "pw": pw, "pdel": pdel}))
+    # whitespace that splits a multi-character token ("( ?:", "\\ (", "{ 2 , 3 }") in patterns whose group structure
+    # (nested groups that can be empty) is observable through analyze-string and replacement
+    bases = [("(?:x)(a(b?))", ["xa", "xab", "zxaxab"]), ("\\(x\\)(a(b?))", ["(x)a", "(x)ab", "-(x)a-"]), ("a\\)(b(c?))", ["a)b", "a)bc"]),
+             ("(?:x|y)((a)(b?))c", ["xac", "yabc", "xacyac"]), ("(a(b*)){2,3}\\[(c?)\\]", ["aab[]", "abab[c]"]), ("\\\\(a(b?))\\1", ["\\aa", "\\abab"]),
+             ("(?:a(?:b(c?)))\\|(d?)x", ["ab|x", "abc|dx"]), ("[(](a(b?))[)]", ["(a)", "(ab)"]), ("(a)(?:(b)|(c?))\\)", ["a)", "ab)", "ac)"])]
+    for bp, ins in bases:
+        inside = class_depth_positions(bp)
+        for _ in range(ctx.scale(6, 40)):
+            pw = ""
+            for k in range(len(bp) + 1):
+                if r.random() < 0.5 and not inside_cls_gap(bp, inside, k):
+                    pw += "".join(r.choice(WS) for _ in range(r.randint(1, 2)))
+                if k < len(bp):
+                    pw += bp[k]
+            for s in ins:
+                cs = []
+                for api, repl in (("compile", ""), ("is_match", ""), ("replace", "<$1|$2|$3>"), ("tokenize", ""), ("analyze", "")):
+                    cs.append(Case(pw, "x", api, s, repl))
+                    cs.append(Case(bp, "", api, s, repl))
+                gs.append(Group(cs, {"features": {"capture_in_rep"} if "{2,3}" in bp else set(), "input": s, "pw": pw, "pdel": bp}))
     # other characters are never removed
     for ch in ["\x0c", "\x0b", " ", " ", "　", "\x85"]:
         cs = []
@@ -734,6 +756,11 @@ def c17_oracle(ctx, g):
 # C18 — a compiled Regex is a pure, reusable, thread-safe value
 
 
+C18_MEMO_POOL = ["a(?:a|bb)*b", "(?:a|bb)*b", "(a|bb)*", "b(?:ab?|b)*a", "(?:a+b?)*b", "(?:b|ab)*?a", "a(?:b|aa)*", "(?:(a)|bb)*b",
+                 "(?:a|ba)+b", "(?:a|bb){0,3}b", "a*(?:b|ab)*a", "(?:a|b|ab)*b"]
+C18_DIALECT_POOL = ["^ab$", "b$", "^a", "a$|^b", "(?:ab)+b", "a+?b", "(a)\\1", "a\\$", "^(a|b)*$", "\\^a", "(?:a|b)$"]
+
+
 def c18_streams(ctx):
     """each group = one history request (a script) + the fresh single-call requests it must agree with"""
     r = ctx.rnd
@@ -741,50 +768,78 @@ def c18_streams(ctx):
     for i in range(ctx.scale(260, 3000)):
         nobj = r.randint(1, 3)
         objs = []
+        inalpha = "ab"
         for k in range(nobj):
-            ast, p, alpha = gen_pattern(ctx, alphabet="ab", maxgroups=2)
-            objs.append((p, r.choice(["", "i", "m"]), alpha))
-        if r.random() < 0.3 and nobj > 1:
+            if r.random() < 0.3:        # shapes whose matcher keeps a memo / whose program has several strategies
+                p = r.choice(C18_MEMO_POOL)
+            else:
+                ast, p, alpha = gen_pattern(ctx, alphabet="ab", maxgroups=2)
+            objs.append((p, r.choice(["", "i", "m"]), "ab", "xp"))
+        x = r.random()
+        if x < 0.25 and nobj > 1:
             objs[1] = objs[0]           # the same pattern compiled twice
+        elif x < 0.5 and nobj > 1:      # the same (pattern, flags) under both dialects, where the dialects differ
+            p = r.choice(C18_DIALECT_POOL)
+            f = r.choice(["", "", "i", "s"])
+            a, b = r.sample(["xp", "xs"], 2)
+            objs[0] = (p, f, "ab", a)
+            objs[1] = (p, f, "ab", b)
+            inalpha = "ab^$"
+        interleave = r.random() < 0.35
         nthreads = r.choice([1, 1, 2, 3, 4]) if ctx.quick() else r.choice([1, 2, 4, 8])
         mode = "par" if nthreads > 1 and r.random() < 0.7 else "seq"
         threads, fresh = [], []
         for t in range(nthreads):
             ops, its = [], {}
             nextid = 0
-            for _ in range(r.randint(3, 10)):
+            pool_in = ["".join(r.choice(inalpha) for _ in range(r.randint(0, 6))) for _ in range(2)]
+            if interleave:
+                # several iterators over the same object and the same input, opened up front and advanced in a random interleaving
                 k = r.randrange(nobj)
-                p, f, alpha = objs[k]
-                s = "".join(r.choice("ab") for _ in range(r.randint(0, 5)))
+                for _ in range(r.randint(2, 3)):
+                    j = nextid
+                    nextid += 1
+                    kind = r.choice("ta")
+                    s = pool_in[0]
+                    p, f, alpha, dia = objs[k]
+                    ops.append(f"{kind}{k}:{j}:{rxlib.cps(s)}")
+                    its[j] = [kind, k, s, 0]
+                    fresh.append(("open", t, len(ops) - 1, Case(p, f, "tokenize" if kind == "t" else "analyze", s, limit=0, dialect=dia)))
+            for _ in range(r.randint(3, 10) if not interleave else r.randint(6, 16)):
+                k = r.randrange(nobj)
+                p, f, alpha, dia = objs[k]
+                s = r.choice(pool_in) if r.random() < 0.6 else "".join(r.choice(inalpha) for _ in range(r.randint(0, 5)))
                 x = r.random()
+                if interleave and x < 0.5:
+                    x = 0.6
                 if x < 0.2:
                     ops.append(f"m{k}:{rxlib.cps(s)}")
-                    fresh.append(("call", t, len(ops) - 1, Case(p, f, "is_match", s)))
+                    fresh.append(("call", t, len(ops) - 1, Case(p, f, "is_match", s, dialect=dia)))
                 elif x < 0.35:
-                    R = r.choice(["-", "$0", "[$1]"])
+                    R = r.choice(["-", "$0", "[$1]"]) if dia == "xp" else "-"
                     ops.append(f"r{k}:{rxlib.cps(s)}:{rxlib.cps(R)}")
-                    fresh.append(("call", t, len(ops) - 1, Case(p, f, "replace", s, R)))
+                    fresh.append(("call", t, len(ops) - 1, Case(p, f, "replace", s, R, dialect=dia)))
                 elif x < 0.5:
                     j = nextid          # iterator ids are never reused within a thread
                     nextid += 1
                     kind = r.choice("ta")
                     ops.append(f"{kind}{k}:{j}:{rxlib.cps(s)}")
                     its[j] = [kind, k, s, 0]
-                    fresh.append(("open", t, len(ops) - 1, Case(p, f, "tokenize" if kind == "t" else "analyze", s, limit=0)))
+                    fresh.append(("open", t, len(ops) - 1, Case(p, f, "tokenize" if kind == "t" else "analyze", s, limit=0, dialect=dia)))
                 elif its and x < 0.93:
                     j = r.choice(list(its))
                     ops.append(f"n{j}")
                     kind, k2, s2, cnt = its[j]
                     its[j][3] += 1
-                    p2, f2, _ = objs[k2]
-                    fresh.append(("next", t, len(ops) - 1, Case(p2, f2, "tokenize" if kind == "t" else "analyze", s2, limit=60), cnt, kind))
+                    p2, f2, _, dia2 = objs[k2]
+                    fresh.append(("next", t, len(ops) - 1, Case(p2, f2, "tokenize" if kind == "t" else "analyze", s2, limit=60, dialect=dia2), cnt, kind))
                 elif its:
                     j = r.choice(list(its))
                     ops.append(f"d{j}")
                     del its[j]
                     fresh.append(("drop", t, len(ops) - 1, None))
             threads.append(";".join(ops))
-        prelude = ";".join(f"c{k}:xp:{rxlib.cps(p)}:{rxlib.cps(f)}" for k, (p, f, _) in enumerate(objs))
+        prelude = ";".join(f"c{k}:{dia}:{rxlib.cps(p)}:{rxlib.cps(f)}" for k, (p, f, _, dia) in enumerate(objs))
         script = prelude + "#" + "#".join(threads)
         hist = Case("", "", "history", script, mode)
         hist_case = HistCase(script, mode)
@@ -826,10 +881,11 @@ def c18_oracle(ctx, g):
             continue
         fa = answers[ai]
         ai += 1
+        cerr = fa in ("ERR:Syntax", "ERR:InvalidFlags")      # the object itself did not compile
         if kind == "call":
-            want = fa if fa in ("T", "F") else ("ERR" if fa.startswith("ERR") else fa)
+            want = "CERR" if cerr else fa if fa in ("T", "F") else ("ERR" if fa.startswith("ERR") else fa)
         elif kind == "open":
-            want = "ERR" if fa.startswith("ERR") else "OPEN"
+            want = "CERR" if cerr else "ERR" if fa.startswith("ERR") else "OPEN"
         else:
             cnt, k = rec[4], rec[5]
             if fa.startswith("ERR"):
